@@ -197,6 +197,73 @@ func init() {
 			e.facts = append(e.facts, fact{Module: "C05Facts", Kind: "rangemap", Name: s.fn, Value: s.expr, Pos: s.file})
 		}
 		sb.WriteString("]\n")
+		// second fact: every use of the PROCESS-GLOBAL math/rand source (rand.Seed, rand.Float64, rand.Intn, … — anything of package
+		// math/rand except the constructors New / NewSource and type names) in the block-execution packages and in the candidate
+		// election (types/candidate.go): a draw from the shared source depends on what other goroutines drew
+		randFiles := append(append([]string{}, files...), "types/candidate.go")
+		sort.Strings(randFiles)
+		type rsite struct{ file, fn, call string }
+		var rs []rsite
+		for _, f := range randFiles {
+			af := parsed[f]
+			if af == nil {
+				var err error
+				if af, err = e.parse(f); err != nil {
+					return "", err
+				}
+			}
+			alias := ""
+			for _, im := range af.Imports {
+				if im.Path.Value == "\"math/rand\"" {
+					alias = "rand"
+					if im.Name != nil {
+						alias = im.Name.Name
+					}
+				}
+			}
+			if alias == "" {
+				continue
+			}
+			for _, d := range af.Decls {
+				fd, ok := d.(*ast.FuncDecl)
+				if !ok || fd.Body == nil {
+					continue
+				}
+				name := fd.Name.Name
+				if fd.Recv != nil && len(fd.Recv.List) == 1 {
+					t := fd.Recv.List[0].Type
+					if st, ok := t.(*ast.StarExpr); ok {
+						t = st.X
+					}
+					if id, ok := t.(*ast.Ident); ok {
+						name = id.Name + "." + name
+					}
+				}
+				ast.Inspect(fd.Body, func(n ast.Node) bool {
+					ce, ok := n.(*ast.CallExpr)
+					if !ok {
+						return true
+					}
+					if se, ok := ce.Fun.(*ast.SelectorExpr); ok {
+						if id, ok := se.X.(*ast.Ident); ok && id.Name == alias && id.Obj == nil && se.Sel.Name != "New" && se.Sel.Name != "NewSource" {
+							rs = append(rs, rsite{f, name, alias + "." + se.Sel.Name})
+						}
+					}
+					return true
+				})
+			}
+		}
+		sb.WriteString("\n/-- every call of the process-global math/rand source in the block-execution packages and the candidate election: (file, function, call) -/\n")
+		sb.WriteString("def globalRandSites : List (String × String × String) := [\n")
+		for i, s := range rs {
+			sep := ","
+			if i == len(rs)-1 {
+				sep = ""
+			}
+			sb.WriteString(fmt.Sprintf("  (%s, %s, %s)%s\n", c02Str(s.file), c02Str(s.fn), c02Str(s.call), sep))
+			e.facts = append(e.facts, fact{Module: "C05Facts", Kind: "globalrand", Name: s.fn, Value: s.call, Pos: s.file})
+		}
+		sb.WriteString("]\n")
 		return sb.String(), nil
 	})
 }
